@@ -6,9 +6,9 @@ From Coq Require Import ZArith String List Bool.
 From PushModel Require Import Base.Sx Base.Machine Base.ListOps Base.F32 Model.Item Model.GraphT Model.State
   Model.InstrBase Model.IScalar Model.ICode Model.Registry Model.Interp
   Model.IVector Model.RegistryVec Model.IList Model.IIo Model.RegistryListIo Model.IGraph Model.RegistryGraph
-  Model.RegistryAll Spec.Footprint
+  Model.INeighbor Model.RegistryNbr Model.RandomGen Model.IRand Model.RegistryRand Model.RegistryAll Spec.Footprint
   Proofs.Frame Proofs.FrameProofs Proofs.FrameProofs2 Proofs.CfgStable Proofs.NameProofs Proofs.Unfired
-  Proofs.StepFrame Proofs.FrameDec.
+  Proofs.Guards Proofs.StepFrame Proofs.FrameDec.
 Import ListNotations.
 Open Scope string_scope.
 
@@ -33,6 +33,14 @@ Theorem C10_unfired_only_pops : forall (FO : FloatOps) (n : string) (f : sem),
   forall p w s w' s', lacking n s = true -> f p w s = Ok (w', s') -> only_pops s s' /\ w' = w.
 Proof. exact @unfired_only_pops. Qed.
 Print Assumptions C10_unfired_only_pops.
+
+(* The same when every operand is there but the guard on the operand values fails (gd_all:
+   division by zero, sizes that are not positive, unbound names, ids and positions out of range). *)
+Theorem C10_guard_fails_only_pops : forall (FO : FloatOps) (n : string) (f : sem),
+  In (n, f) full_table ->
+  forall p w s w' s', guard_fails n s = true -> f p w s = Ok (w', s') -> only_pops s s' /\ w' = w.
+Proof. exact @guard_only_pops. Qed.
+Print Assumptions C10_guard_fails_only_pops.
 
 (* One interpreter step changes EXEC plus the footprint of the item it executes. *)
 Theorem C10_step_frame : forall (FO : FloatOps) p w s t r fin w1 s1,
@@ -72,8 +80,7 @@ Print Assumptions C10_quote_flag_only_by_name_quote.
 Theorem C10_checker_sound :
   (forall m s s', same_outside_b m s s' = true <-> same_outside m s s') /\
   (forall s s', only_pops_b s s' = true <-> only_pops s s') /\
-  (forall m nd b a, frame_verdict m nd b a = true <->
-                    same_outside m b a /\ (lacking_in nd b = true -> only_pops b a)).
+  (forall m u b a, frame_verdict m u b a = true <-> same_outside m b a /\ (u = true -> only_pops b a)).
 Proof. split; [exact same_outside_b_ok|split; [exact only_pops_b_ok|exact frame_verdict_ok]]. Qed.
 Print Assumptions C10_checker_sound.
 
@@ -127,6 +134,24 @@ Example C10_nonvacuous_graph : forall (FO : FloatOps),
             = Ok ({| w_next_node := 8; w_tape := [] |}, set_graph (set_int busy [7]) [g]).
 Proof. intro FO. repeat split; try reflexivity. eexists. reflexivity. Qed.
 
+(* a failing guard: INTEGER./ by zero consumes both operands and pushes nothing;
+   LIST.NEIGHBOR*IDS and INTVECTOR.RAND without their operands *)
+Example C10_nonvacuous_guard : forall (FO : FloatOps),
+  lacking "INTEGER./" (set_int busy [0; 6]) = false /\ guard_fails "INTEGER./" (set_int busy [0; 6]) = true /\
+  pure integer_div Debug w0 (set_int busy [0; 6]) = Ok (w0, busy) /\
+  guard_fails "INTEGER./" (set_int busy [2; 6]) = false /\
+  pure integer_div Debug w0 (set_int busy [2; 6]) = Ok (w0, set_int busy [3]).
+Proof. intro FO. repeat split; reflexivity. Qed.
+Example C10_nonvacuous_nbr_rand : forall (FO : FloatOps),
+  lacking "LIST.NEIGHBOR*IDS" (set_int busy [9; 4]) = true /\
+  purep list_neighbor_ids Debug w0 (set_int busy [9; 4]) = Ok (w0, set_int busy [9; 4]) /\
+  lacking "LIST.NEIGHBOR*IDS" (set_float (set_int busy [9; 4; 2]) []) = true /\
+  purep list_neighbor_ids Debug w0 (set_float (set_int busy [9; 4; 2]) []) = Ok (w0, set_float busy []) /\
+  lacking "INTVECTOR.RAND" (set_int busy [3; 5]) = true /\
+  int_vector_rand Debug {| w_next_node := 7; w_tape := [1; 2; 3] |} (set_int busy [3; 5])
+    = Ok ({| w_next_node := 7; w_tape := [1; 2; 3] |}, set_int busy [3; 5]).
+Proof. intro FO. repeat split; reflexivity. Qed.
+
 (* the documented exception: INTVECTOR.SET*INSERT creates a vector out of nothing, which is why
    its line in nd_ivec says it needs nothing (with `needs INTEGER 1` the theorem would be false) *)
 Example C10_set_insert_exception : forall (FO : FloatOps),
@@ -140,7 +165,7 @@ Qed.
 
 (* the checker's verdict on these states *)
 Example C10_checker_examples :
-  frame_verdict (W [FInt]) [(FInt, 2%nat)] (set_int busy [4]) (set_int busy [4]) = true /\
-  frame_verdict (W [FInt]) [(FInt, 2%nat)] (set_int busy [4]) (set_int busy [4; 0]) = false /\      (* pushed although lacking *)
-  frame_verdict (W [FInt]) [(FInt, 2%nat)] (set_int busy [4; 3]) (set_bool (set_int busy [7]) []) = false. (* wrote BOOLEAN *)
+  frame_verdict (W [FInt]) (lacking "INTEGER.+" (set_int busy [4])) (set_int busy [4]) (set_int busy [4]) = true /\
+  frame_verdict (W [FInt]) (lacking "INTEGER.+" (set_int busy [4])) (set_int busy [4]) (set_int busy [4; 0]) = false /\  (* pushed although lacking *)
+  frame_verdict (W [FInt]) (lacking "INTEGER.+" (set_int busy [4; 3])) (set_int busy [4; 3]) (set_bool (set_int busy [7]) []) = false. (* wrote BOOLEAN *)
 Proof. repeat split; reflexivity. Qed.
